@@ -176,6 +176,21 @@ def apply_contract(I, c, qn, args, kwargs, fr, site, finfo=None):
         t = I.truthy(I.E.eval_spec_in(I, r, sf))
         st.oblige("%s::pre(%s.%s)::%s" % (caller, short(qn), lab, site), t, kind="pre")
     raises = c.get("raises") or {}
+    # exceptional outcomes whose guard is already refuted by the caller's state are not explored at all
+    live = {}
+    for k_, v_ in raises.items():
+        cond_ = v_.get("when", "True") if isinstance(v_, dict) else v_
+        simple = isinstance(cond_, str) and "ghost(" not in cond_ and "result" not in cond_ and "exc" not in cond_ \
+            and not (isinstance(v_, dict) and v_.get("ghost"))
+        if simple and cond_ != "True":
+            try:
+                g_ = I.truthy(I.E.eval_spec_in(I, cond_, sf))
+                if g_ is False or (g_ is not True and st.proves(z3.Not(zbool(g_)))):
+                    continue
+            except Unsupported:
+                pass
+        live[k_] = v_
+    raises = live
     outcomes = ["normal"] + list(raises.keys())
     merged = None
     if getattr(I, "handler_depth", 0) == 0 and len(raises) > 1:
